@@ -926,7 +926,22 @@ func (d *Decoder) attachAnnotations(v reflect.Value) error {
 			if err != nil {
 				return err
 			}
-			subValue.Set(reflect.ValueOf(annotations))
+			switch {
+			case reflect.TypeOf(annotations).AssignableTo(subValue.Type()):
+				subValue.Set(reflect.ValueOf(annotations))
+			case subValue.Kind() == reflect.Slice && subValue.Type().Elem().Kind() == reflect.String:
+				// A slice of strings, as in the documentation of Unmarshal.
+				texts := reflect.MakeSlice(subValue.Type(), 0, len(annotations))
+				for _, a := range annotations {
+					if a.Text == nil {
+						return fmt.Errorf("ion: annotation $%d has no text to put in %v", a.LocalSID, subValue.Type())
+					}
+					texts = reflect.Append(texts, reflect.ValueOf(*a.Text).Convert(subValue.Type().Elem()))
+				}
+				subValue.Set(texts)
+			default:
+				return fmt.Errorf("ion: cannot put annotations in a field of type %v", subValue.Type())
+			}
 			break
 		}
 	}
